@@ -77,6 +77,14 @@ def cases(tier):
     # subtrahend wider than the minuend (saturating subtraction uses the borrow of the wider width)
     add('sub', [(1, 2, 2), (1, 2, 4)])
     add('sub', [(2, 1, 1), (2, 1, 3)])
+    # reductions with an explicit result width smaller than the element width (result modulo 2**bits)
+    for op in ('min', 'max', 'sum'):
+        for ax in (None, 0, 1):
+            add(op, [(3, 2, 4)], axis=ax, rbits=2)
+            add(op, [(2, 3, 3)], axis=ax, rbits=1)
+    # a row assigned from a wider matrix, the element width raised afterwards
+    add('setitem_widen', [(2, 2, 3), (1, 2, 6)], newbits=6)
+    add('setitem_widen', [(1, 3, 2), (1, 3, 4)], newbits=5)
     # one Matrix object in both operand positions
     for op in ('add', 'sub', 'mul', 'hstack', 'vstack', 'dot'):
         add(op, [(2, 2, 2)], self2=True)
